@@ -256,9 +256,9 @@ struct ParserCheck
         {
             Decl part = D;
             part.items.resize(std::min(k, D.items.size()));
-            run_on(p, part, {});
             std::stringstream sink;
             p.usage(sink);
+            run_on(p, part, {}); // the parse comes last: whatever the parser derives from its declarations exists now
         }
         for (size_t i = k; i < D.items.size(); i++)
             declare(D.items[i]);
